@@ -451,12 +451,25 @@ class Run:
                     return ("crash", i, rc, err, tr, 0)
                 return ("harness", i, rc, err, tr, 0)
             n = count_cases(tr)
+            nte = len(self.tool_errors)
             bad = self.validate("%s-%s-%d" % (self.prop, label, i), module, cfg, tr, classify, env=env, timeout=timeout, xmx=xmx,
                                 case_key=case_key)
             for (m2, c2) in also:
                 bad += self.validate("%s-%s-%d-%s" % (self.prop, label, i, m2[:-4]), m2, c2, tr, classify, env=env, timeout=timeout,
                                      xmx=xmx, case_key=case_key)
-            return ("ok", i, 0, "", tr, n, bad)
+            sample = None
+            try:
+                with open(tr) as f:
+                    sample = [json.loads(next(f)) for _ in range(3)]
+            except Exception:
+                pass
+            # recorded traces are large; once judged (rejected cases have been copied into replay files) they are removed
+            if not os.environ.get("VERIF_KEEP_TRACES") and len(self.tool_errors) == nte:
+                try:
+                    os.remove(tr)
+                except OSError:
+                    pass
+            return ("ok", i, 0, "", tr, n, bad, sample)
 
         t_start = time.time()
         results = parallel([(one, (i,), {}) for i in range(shards)])
@@ -471,13 +484,8 @@ class Run:
         self.traces += total
         # keep a sample
         for r in results:
-            if r[0] == "ok" and len(self.samples) < 6:
-                try:
-                    with open(r[4]) as f:
-                        first = [json.loads(next(f)) for _ in range(3)]
-                    self.samples.append({"source": label, "events": first})
-                except Exception:
-                    pass
+            if r[0] == "ok" and len(self.samples) < 6 and r[7]:
+                self.samples.append({"source": label, "events": r[7]})
                 break
         log("[trace] %s: %d real-code cases judged by %s%s (%.0fs)" % (label, total, module, "".join(" + " + m for (m, _) in also),
                                                                         time.time() - t_start))
